@@ -39,6 +39,11 @@ type Sched struct {
 	// A task that nevertheless blocks on that lock in the middle of an operation (code that takes it late) is noticed
 	// by a real-time watchdog and set aside until it shows up at a step again.
 	MutexFree func() bool
+	// KernelQueue, when set, adds one more choice at a status-lock step whose lock is held: now and then (a hash of
+	// seed, decision and task) the task is released all the same and goes to sleep inside the kernel's flock, with
+	// its own descriptor on the lock file as it is at that moment - a real queued waiter.  It is set aside like a
+	// task stuck on an in-process lock and is an ordinary parked task again when it shows up at its next step.
+	KernelQueue bool
 }
 
 type schedTask struct {
@@ -226,6 +231,7 @@ func (s *Sched) Run() bool {
 				break // the running task will signal when it parks or finishes
 			}
 			var elig []*schedTask
+			var queue *schedTask
 			for _, t := range s.order {
 				if t.done || t.stuck {
 					continue
@@ -237,9 +243,22 @@ func (s *Sched) Run() bool {
 					s.Stats["sched_daemon_serialised"]++
 				case len(t.kind) > 5 && t.kind[len(t.kind)-5:] == ".lock" && !lockFree(t.path):
 					s.Stats["sched_lock_waits"]++
+					if s.KernelQueue && !t.daemon && queue == nil && simnet.H(s.Seed, "kernelqueue", s.decision, t.name)%12 == 0 {
+						queue = t
+					}
 				default:
 					elig = append(elig, t)
 				}
+			}
+			if queue != nil && len(elig) > 0 {
+				// everybody else is parked, so the lock stays held until this task sleeps in flock behind it
+				s.decision++
+				s.Stats["sched_kernel_queue_entered"]++
+				queue.parked, queue.stuck = false, true
+				s.mu.Unlock()
+				queue.grant <- struct{}{}
+				time.Sleep(20 * time.Millisecond) // (real time: let it reach the system call before the holder moves on)
+				continue
 			}
 			if len(elig) == 0 {
 				s.mu.Unlock()
